@@ -9,3 +9,9 @@ package consensus
 //@ type Engine.VerifyUncles
 //@   trusted
 //@   assigns nothing
+
+// Trusted observer: a chain reader reports the same configuration every time it is asked.
+//@ type ChainReader.Config
+//@   trusted
+//@   ensures result == as(chaincfg(self), "*params.ChainConfig")
+//@   assigns nothing
